@@ -286,5 +286,6 @@ const shallowWalkerClause = "nested statements (E58): a loop over the statements
 
 var shallowWalkerExceptions = map[string]string{
 	"dxil/internal/passes/mem2reg.countLocalUses:range#1": "shallow on purpose: it counts the stores and loads that sit directly in this block so that a variable is promoted only when all of its uses are colocated in one block (the doc comment says so; rewriteBlock handles the same block only)",
+	"dxil/internal/passes/mem2reg.storedBeforeLoaded:range#1": "shallow on purpose, like countLocalUses: it is asked only about candidates, all of whose loads and stores sit directly in this block (selectBlockCandidates compares the in-block counts with the function-wide ones)",
 	"msl/internal/codegen.Writer.countStmtExprRefs:range#1": "reference-count / bake heuristic only (see the handlewalk exception for the same function): an under-counted reference leaves a pure expression inline",
 }
